@@ -71,10 +71,13 @@ def km_point(p, sigma_v, x, y):
 PHYS = [
     dict(zm=10.0, z0=0.1, ws=3.0, ustar=0.3, L=-50.0, sigma_v=0.5),
     dict(zm=3.0, z0=0.02, ws=4.0, ustar=0.35, L=80.0, sigma_v=0.7),
+    dict(zm=12.0, z0=0.05, ws=2.2, ustar=0.12, L=8.0, sigma_v=0.35),        # strongly stable: zm / L = 1.5 (the closed form has no upper limit)
     dict(zm=20.0, z0=0.5, ws=5.0, ustar=0.6, L=-400.0, sigma_v=1.1),
     dict(zm=2.0, z0=0.01, ws=2.5, ustar=0.2, L=1.0e6, sigma_v=0.3),
     dict(zm=6.0, z0=0.05, ws=2.0, ustar=0.15, L=25.0, sigma_v=0.4),
     dict(zm=40.0, z0=1.0, ws=8.0, ustar=0.9, L=-15.0, sigma_v=1.5),
+    dict(zm=10.0, z0=0.1, ws=3.0, ustar=0.2, L=10.0, sigma_v=0.4),           # zm / L = 1 exactly
+    dict(zm=30.0, z0=0.3, ws=2.0, ustar=0.25, L=-4.0, sigma_v=0.9),          # strongly unstable: zm / L = -7.5
 ]
 
 
@@ -361,8 +364,8 @@ def replay_z0(chk, emitted, hws, rng):
     wd = wd[order]
     zm = np.full(720, 10.0)
     ustar = np.full(720, 0.4)
-    L = np.where(np.arange(720) % 3 == 0, -60.0, 90.0)
-    ws = 3.0 + 2.0 * rng.random(720)             # distinct raw z0 values
+    L = np.where(np.arange(720) % 3 == 0, -60.0, np.where(np.arange(720) % 3 == 1, 6.0, 90.0))      # unstable, strongly stable (zm / L = 1.67), stable
+    ws = 3.0 + 2.0 * rng.random(720) + np.where(np.arange(720) % 3 == 1, 7.0, 0.0)             # distinct raw z0 values
     raw = estimateZ0(zm, ws, wd, ustar, L, half_wd_win=0)
     # raw values invert the diabatic log law: ws = ustar/k (ln(zm/z0) + psi_m)
     back = np.asarray([ustar[i] / K * (math.log(zm[i] / raw[i]) + km_params(zm[i], 1.0, 1.0, ustar[i], L[i])["psi_m"]) for i in range(720)])
